@@ -11,7 +11,24 @@ package contactql
 
 // what the evaluator needs to know about a condition: the operator is one of the seven, ordering
 // operators are only used on numbers and dates, and contains is only used on text
-//@ pred CondOK(c *Condition, resolver Resolver) := c != nil && !isnil(resolver) && OpWF(c.operator) && (c.operator == OpContains ==> !isNumOrDate(c.resolveValueType(resolver))) && (isCmpOp(c.operator) ==> isNumOrDate(c.resolveValueType(resolver)))
+// ... and, because the evaluator discards the errors of ValueAsNumber / ValueAsDate, the value of a number or date
+// condition parses - unless the condition is an existence check (= or != against the empty value), which the evaluator
+// answers without looking at the value
+//@ pure parsesAsNumber(value string) bool
+//@ pure parsesAsDate(value string) bool
+//@ pred existenceCheck(c *Condition) := c.value == "" && (c.operator == OpEqual || c.operator == OpNotEqual)
+//@ pred CondOK(c *Condition, resolver Resolver) := c != nil && !isnil(resolver) && OpWF(c.operator) && (c.operator == OpContains ==> !isNumOrDate(c.resolveValueType(resolver))) && (isCmpOp(c.operator) ==> isNumOrDate(c.resolveValueType(resolver))) && ((c.resolveValueType(resolver) == assets.FieldTypeNumber && !existenceCheck(c)) ==> parsesAsNumber(c.value)) && ((c.resolveValueType(resolver) == assets.FieldTypeDatetime && !existenceCheck(c)) ==> parsesAsDate(c.value))
+
+// the two conversions define what "parses" means (decimal.NewFromString / envs.DateTimeFromString: assumed to be
+// functions of the text; for dates, of the text in the environment the query is validated and evaluated in)
+//@ func (c *Condition) ValueAsNumber
+//@   trusted
+//@   assigns nothing
+//@   ensures isnil(result1) <==> parsesAsNumber(c.value)
+//@ func (c *Condition) ValueAsDate
+//@   trusted
+//@   assigns nothing
+//@   ensures isnil(result1) <==> parsesAsDate(c.value)
 
 // dynamic type of a property value agrees with the value type of the property
 //@ pred valTyped(val any, vt assets.FieldType) := (vt == assets.FieldTypeNumber ==> typeis(val, decimal.Decimal)) && (vt == assets.FieldTypeDatetime ==> typeis(val, time.Time)) && (!isNumOrDate(vt) ==> typeis(val, string))
@@ -86,6 +103,11 @@ package contactql
 //@   pure
 //@   nopanic
 //@   requires CondOK(c, resolver) && valTyped(val, c.resolveValueType(resolver))
+// only reached for conditions that are not existence checks, so the value conversions whose errors are dropped here
+// cannot have failed
+//@   requires [not_existence] !existenceCheck(c)
+//@   checks [number_value_parsed] c.resolveValueType(resolver) == assets.FieldTypeNumber ==> parsesAsNumber(c.value)
+//@   checks [date_value_parsed] c.resolveValueType(resolver) == assets.FieldTypeDatetime ==> parsesAsDate(c.value)
 
 //@ func textComparison
 //@   nopanic
